@@ -5,6 +5,6 @@ cd /verif
 ids="$@"; [ -z "$ids" ] && ids=$(ls seeded)
 for id in $ids; do
   prop=$(python3 -c "import json;print(json.load(open('seeded/$id/meta.json'))['property'])")
-  out=$(driver/try_patch.sh seeded/$id/patch.diff $prop quick 2>&1)
+  out=$(driver/try_patch.sh /verif/seeded/$id/patch.diff $prop quick 2>&1)
   if echo "$out" | grep -q "^VIOLATION property=$prop"; then echo "$id $prop CAUGHT"; else echo "$id $prop MISSED"; echo "$out" | tail -3; fi
 done
